@@ -26,6 +26,8 @@ TEMPLATES = {
     'M': ['M'], 'MS': ['M', 'S'], 'MnS': ['M', 'n', 'S'], 'ME': ['M', 'E'], 'tMS': ['t', 'M', 'S'],
     # ... and over three lines (one attribute per line)
     'L': ['L'], 'LS': ['L', 'S'], 'tL': ['t', 'L'],
+    # a quoted attribute value that itself holds block-tag text: part of the tag, not tags of their own
+    'Q': ['Q'], 'QE': ['Q', 'E'], 'QnS': ['Q', 'n', 'S'],
 }
 
 
@@ -51,6 +53,11 @@ class CommentSpec:
                 k += 1
             elif it == 'L':         # start tag over three lines
                 tag = b'<block name="b%d"\n   a="1"\n     bb="22">' % k
+                self.events.append(('S', len(text), len(tag), 'b%d' % k))
+                text += tag + b' '
+                k += 1
+            elif it == 'Q':         # tag text inside a quoted value (the scanner must resume AFTER the tag)
+                tag = b'<block name="b%d" p="</block><block>">' % k
                 self.events.append(('S', len(text), len(tag), 'b%d' % k))
                 text += tag + b' '
                 k += 1
